@@ -148,4 +148,11 @@ example :
     let e := (runEvents (Engine.new { policy := .preserveQos1Plus }) [.user 0 (.publish { topic := [97], qos := 1 } 0 none)]).1
     (e.state == .disconnected && e.userQ == [1] && (e.ops.lookup 1).isSome) = true := by decide
 
+/-- non-vacuity for the handshake case (the instance a seeded change got wrong): the transport is open and the CONNECT written, the
+    CONNACK is still outstanding; a QoS 1 publish submitted under PreserveNothing fails at once and is not queued -/
+example :
+    let e := (runEvents (Engine.new { policy := .preserveNothing }) [.opened 1 100, .service 2 4096 0, .writeDone 3,
+      .user 4 (.publish { topic := [97], qos := 1 } 0 none)]).1
+    (e.state == .pendingConnack && e.userQ == [] && e.ops.length == 0) = true := by decide +kernel
+
 end GV.Props.C15
